@@ -282,7 +282,7 @@ class Program:
             if isinstance(node.value, ast.Name) and node.value.id in ("self", "cls") and ci is not None:
                 for c in self.mro(ci):
                     if node.attr in c.class_assigns and len(c.class_assigns[node.attr]) == 1:
-                        return self.fold(c.class_assigns[node.attr][0], c.mod, c)
+                        return self.fold_class_level(c.class_assigns[node.attr][0], c)
                 raise NotConst(ast.unparse(node))
             if isinstance(node.value, ast.Name) and (node.value.id, node.attr) in _EXTERNAL_CONSTS:
                 r = self.resolve_name(node.value.id, mi)
@@ -290,6 +290,29 @@ class Program:
                     return _EXTERNAL_CONSTS[(node.value.id, node.attr)]
             base = self.fold(node.value, mi, ci)
             return self._fold_attr(base, node.attr, node)
+        if isinstance(node, ast.JoinedStr):
+            parts = []
+            for v in node.values:
+                if isinstance(v, ast.Constant):
+                    parts.append(str(v.value))
+                elif isinstance(v, ast.FormattedValue):
+                    val = self.fold(v.value, mi, ci)
+                    if v.conversion == 114:
+                        val = repr(val)
+                    elif v.conversion == 115:
+                        val = str(val)
+                    elif v.conversion == 97:
+                        val = ascii(val)
+                    spec = ""
+                    if v.format_spec is not None:
+                        spec = self.fold(v.format_spec, mi, ci)
+                    try:
+                        parts.append(format(val, spec))
+                    except Exception:
+                        raise NotConst(ast.unparse(node)) from None
+                else:
+                    raise NotConst(ast.unparse(node))
+            return "".join(parts)
         if isinstance(node, ast.UnaryOp):
             v = self.fold(node.operand, mi, ci)
             try:
@@ -353,7 +376,26 @@ class Program:
                     return ("funcref", r[1].mod.relpath + "::" + r[2].name)
             return ("expr", ast.unparse(v))
 
+    def fold_class_level(self, node, c):
+        """Fold the value of a class-body assignment: bare names see the class's own (earlier) attributes first."""
+        stack = self.__dict__.setdefault("_class_scope", [])
+        stack.append(c)
+        try:
+            return self.fold(node, c.mod, c)
+        finally:
+            stack.pop()
+
     def _fold_name(self, name, mi, ci=None):
+        stack = self.__dict__.get("_class_scope")
+        if stack and name in stack[-1].class_assigns and len(stack[-1].class_assigns[name]) == 1:
+            ckey = ("class-level", stack[-1].key, name)
+            if ckey in self._folding:
+                raise NotConst(f"cyclic {name}")
+            self._folding.add(ckey)
+            try:
+                return self.fold(stack[-1].class_assigns[name][0], stack[-1].mod, stack[-1])
+            finally:
+                self._folding.discard(ckey)
         key = (mi.mod.relpath, name)
         if key in self._fold_cache:
             v = self._fold_cache[key]
